@@ -91,6 +91,12 @@ def esc1(ctx: Ctx) -> None:
             for d in fn.decorator_list:
                 dn = norm(d.func) if isinstance(d, ast.Call) else norm(d)
                 if dn.split(".")[-1] in ("lru_cache", "cache", "cached_property"):
+                    import re as _re
+                    scal = _re.compile(r"^(Optional\[)?(bool|int|float|str|bytes|types\.CodeType|CodeType)(\])?$")
+                    anns = [ast.unparse(a.annotation).strip("'\"") if a.annotation is not None else "" for a in fn.args.posonlyargs + fn.args.args + fn.args.kwonlyargs if a.arg not in ("self", "cls")]
+                    if anns and all(scal.match(a_) for a_ in anns):
+                        ctx.R.ok("ESC-1", f"{mod.name}.{q}: @{dn} over {anns}", "memo keyed by immutable values / code objects: nothing of the observed program's state is retained")
+                        continue
                     if not _registration_time(mod, fn):
                         ctx.R.fail("ESC-1", mod, fn, f"`@{dn}` memoises a function that receives extraction targets: its arguments and results are retained after the Stack is dropped",
                                    construct=f"@{dn} on {q}")
@@ -222,9 +228,10 @@ def esc2(ctx: Ctx) -> None:
     uvar = norm(uw[0].targets[0])
     for s in ast.walk(fn):
         if isinstance(s, ast.Call) and norm(s.func) in ("reversed", "iter", "list", "tuple") and s.args and norm(s.args[0]) == uvar:
-            gs = [norm(g) for g, pol in guards_of(mod, s, fn) if pol] + [norm(g.operand) for g, pol in guards_of(mod, s, fn)
-                                                                         if not pol and isinstance(g, ast.UnaryOp) and isinstance(g.op, ast.Not)]
-            if any(g.startswith(f"isinstance({uvar},") and "Sequence" in g for g in gs):
+            from ..util import implies_sequence
+            gpos = [g for g, pol in guards_of(mod, s, fn) if pol] + [g.operand for g, pol in guards_of(mod, s, fn)
+                                                                  if not pol and isinstance(g, ast.UnaryOp) and isinstance(g.op, ast.Not)]
+            if any(implies_sequence(g, uvar) for g in gpos):
                 ctx.R.ok("ESC-2", f"extract_iter: {norm(s)} only under isinstance(..., Sequence)")
             else:
                 ctx.R.fail("ESC-2", mod, s, "an unwrap result is iterated without having been tested to be a Sequence: a generator returned as 'the next stack item' would be consumed")
@@ -743,6 +750,34 @@ def _cty_findings(tree: ast.AST):
             if not rt.endswith("py_object"):
                 out.append((c, c.func.attr, rt))
     return out
+
+
+def eqkey1(ctx: Ctx) -> None:
+    """EQKEY-1 nothing is memoised under a code object by *equality*: code objects hash and compare by value (on 3.9 / 3.10
+    without the line table or the file name), so `functools.lru_cache` / `cache` on a function of a code object, or a plain
+    dict keyed by one, hands the result computed for one function to a different function with equal code (the same source
+    compiled twice, a reloaded module, two layouts of one body).  Identity-keyed memos (IdentityDict, id(code) with the code
+    kept alive) are fine."""
+    import re as _re
+    n = 0
+    codeann = _re.compile(r"(^|[^\w])(types\.)?CodeType")
+    for mod in ctx.P.analysed_mods():
+        for q, fn in mod.defs.items():
+            if not isinstance(fn, (ast.FunctionDef, ast.AsyncFunctionDef)):
+                continue
+            for d in fn.decorator_list:
+                dn = norm(d.func) if isinstance(d, ast.Call) else norm(d)
+                if dn.split(".")[-1] in ("lru_cache", "cache"):
+                    n += 1
+                    ps = [a for a in fn.args.posonlyargs + fn.args.args + fn.args.kwonlyargs if a.arg not in ("self", "cls")]
+                    codes = [a.arg for a in ps if (a.annotation is not None and codeann.search(ast.unparse(a.annotation))) or (a.annotation is None and a.arg in ("code", "co", "codeobj", "code_obj"))]
+                    if codes:
+                        ctx.R.fail("EQKEY-1", mod, fn, f"`{q}` is memoised with @{dn} and takes the code object `{codes[0]}`: the cache is keyed by equality of code objects, so a different function whose code "
+                                   "compares equal (same source compiled twice, a reloaded module; on 3.9/3.10 even a different line layout) is served the first one's result", construct=f"@{dn} keyed by a code object in {q}")
+                    else:
+                        ctx.R.ok("EQKEY-1", f"{mod.name}.{q}: @{dn} not keyed by a code object")
+    if n == 0:
+        ctx.R.ok("EQKEY-1", "no function of the package is memoised by equality")
 
 
 def idkey1(ctx: Ctx) -> None:
